@@ -284,6 +284,8 @@ def gen_grid(rng):
         case["norm"] = rng.choice(NORMS)
     if rng.random() < 0.15:
         case["stop_only"] = True
+    if rng.random() < 0.3:
+        case["positional"] = True
     has_vector = isinstance(stop, list) or (isinstance(start, list) and not case.get("stop_only"))
     spellings = ["int", "int"]
     if has_vector:
@@ -388,6 +390,13 @@ def run_grid_case(case, ctx, kernel):
             if case.get("stop_only"):
                 got = numpoly.glexindex(stop, cross_truncation=trunc_arg(case["trunc"]), **dimkw,
                                         graded=graded, reverse=reverse)
+            elif case.get("positional") and "dimensions" in dimkw and \
+                    isinstance(dimkw["dimensions"], int):
+                # the documented parameter order:
+                # glexindex(start, stop, dimensions, cross_truncation, graded, reverse)
+                ctx.count("glexindex_positional")
+                got = numpoly.glexindex(start, stop, dimkw["dimensions"],
+                                        trunc_arg(case["trunc"]), graded, reverse)
             else:
                 got = numpoly.glexindex(start, stop, **dimkw,
                                         cross_truncation=trunc_arg(case["trunc"]), graded=graded,
